@@ -4,6 +4,29 @@ use a5::core::serialization::{deserialize, serialize};
 use a5::core::utils::A5Cell;
 use serde_json::{json, Value};
 
+/// curve positions that are special as NUMBERS rather than as digit strings: multiples of powers of ten (decimal limbs),
+/// neighbours of 2^16, 2^24, 2^31, 2^32, 2^53 (narrow integer and floating-point detours)
+pub fn numeric_specials(h: usize, rng: &mut Rng) -> Vec<u64> {
+    if h == 0 { return vec![]; }
+    let mask = if h >= 32 { u64::MAX } else { (1u64 << (2 * h)) - 1 };
+    let mut v = vec![];
+    for k in [3u32, 4, 6, 9, 12, 15, 18] {
+        let p = 10u64.pow(k);
+        if p > mask { continue; }
+        let m = 1 + rng.below(mask / p);
+        v.push(m * p);
+        v.push(p);
+        v.push((mask / p) * p);
+    }
+    for j in [8u32, 16, 24, 31, 32, 48, 53] {
+        let b = 1u64 << j;
+        for x in [b - 1, b, b + 1, (rng.next() & mask & !(b - 1)) | 1, (rng.next() & mask) | (b - 1)] { if x <= mask { v.push(x); } }
+    }
+    v.sort_unstable();
+    v.dedup();
+    v
+}
+
 fn digit_patterns(h: usize, rng: &mut Rng, nrand: usize) -> Vec<u64> {
     // curve positions with h digits: all-0, all-3, alternating, single digits, first/last only, random
     let mut v = vec![];
@@ -49,6 +72,8 @@ fn digit_patterns(h: usize, rng: &mut Rng, nrand: usize) -> Vec<u64> {
         v.push(s);
         if start > 0 { v.push(s & !((1u64 << (2 * start)) - 1)); v.push(s | ((1u64 << (2 * start)) - 1)); }
     }
+    let ns = numeric_specials(h, rng);
+    for _ in 0..(nrand + 2).min(ns.len()) { v.push(*rng.pick(&ns)); }
     v.sort_unstable();
     v.dedup();
     v
@@ -274,6 +299,15 @@ pub fn gen_c05(tier: &str, seed: u64, out: &str, mc_replay: Option<&str>) -> Val
                 strs.push(st);
             }
         }
+    }
+    // digit strings whose LENGTH sits around 2^8, 2^9, 2^10 (counters of digits are often narrow), with and without
+    // leading zeros; all are wider than 64 bits unless they are all zeros
+    for len in [250usize, 255, 256, 257, 258, 264, 271, 272, 273, 511, 512, 513, 520, 528, 1023, 1024, 1025, 1040] {
+        let digits: String = (0..len).map(|i| char::from_digit(((i * 11 + len) % 15 + 1) as u32, 16).unwrap()).collect();
+        strs.push(digits.clone());
+        strs.push(format!("1{}", "0".repeat(len - 1)));
+        strs.push(format!("{}{}", "7".repeat(len - 16), "2a80000000000000"));
+        strs.push(format!("{}{}", "0".repeat(len - 3), "abc"));
     }
     let mut n_parse = 0u64;
     for s in &strs {
@@ -724,6 +758,17 @@ pub fn gen_c09(tier: &str, seed: u64, out: &str, mc_replay: Option<&str>, fixtur
                 }
             }
         }
+    }
+    // constant and almost constant lists whose length sits around 2^8 and 2^9 (repeat counters are often narrow)
+    for (i, k) in [255usize, 256, 257, 260, 300, 511, 512, 513].iter().enumerate() {
+        let r = [3, 9, 0, 17, 29, 1, 12, 5][i];
+        let c = random_cell(&mut rng, r);
+        let other = random_cell(&mut rng, r);
+        t.emit(uncompact_event(&vec![c; *k], r));
+        let mut l = vec![other]; l.extend(vec![c; *k]); l.push(other);
+        t.emit(uncompact_event(&l, (r + 1).min(29)));
+        n += 2;
+        t.cut();
     }
     // runs of consecutive neighbours, intact and perturbed in place (swap, foreign cell, duplicate, deletion)
     let nruns = if tier == "thorough" { 1500 } else { 240 };
